@@ -370,3 +370,16 @@ def in_ascii(v):
 def all_printable_at(s, j):
     """a string of printable characters has a printable character at every position"""
     return implies(0 <= j and j < len(s) and all_printable(s), printable(s[j]))
+
+
+# ---------------------------------------------------------------------------------------------------- C06: subset matching
+@recursive('list[str];list[str]->bool', fuel=1)
+def all_in(xs, pol):
+    """every element of xs occurs in pol"""
+    return True if len(xs) == 0 else (all_in(xs[:-1], pol) and xs[-1] in pol)
+
+
+@lemma('list[str];list[str];int', induction='xs', smaller='xs[:-1]', base='len(xs) == 0', fuel=1)
+def all_in_at(xs, pol, j):
+    """a list all of whose elements are allowed has an allowed element at every position"""
+    return implies(0 <= j and j < len(xs) and all_in(xs, pol), xs[j] in pol)
